@@ -12,10 +12,12 @@ import (
 	"bytes"
 	"fmt"
 	"io"
+	"strings"
 )
 
 var _ = bytes.Equal
 var _ = fmt.Errorf
+var _ = strings.IndexByte
 
 // ---------------------------------------------------------------------------
 // Ghost vocabulary (interpreted by the VC generator; the Go bodies are only
@@ -64,6 +66,8 @@ func outLen(w io.Writer) int            { return 0 }
 func outCalls(w io.Writer) int          { return 0 }
 func outByte(w io.Writer, i int) byte   { return 0 }
 func sameBase(a, b []byte) bool         { return false }
+func offOf(a []byte) int                { return 0 }
+func rangeIdx() int                     { return 0 }
 func fresh(b []byte) bool               { return false }
 func freshStr(s string) bool            { return false }
 func strViewOf(s string, b []byte) bool { return false }
@@ -596,3 +600,70 @@ func specFieldsAt(line []byte, a, b int) bool {
 //@   ensures [lit101] err == nil && resp.status == 101 ==> exists(0, len(line), func(a int) bool { return specFieldsAt(line, a, a+4) && is101(line[a+1:a+4]) })
 //@   ensures [errv]   err != nil ==> err == ErrMalformedResponse
 //@   assigns nothing
+
+//@ func strings.IndexByte
+//@   ensures [none]  result == -1 ==> forall(0, len(s), func(k int) bool { return s[k] != c })
+//@   ensures [found] result != -1 ==> 0 <= result && result < len(s) && s[result] == c && forall(0, result, func(k int) bool { return s[k] != c })
+//@   assigns nothing
+
+//@ func strings.LastIndexByte
+//@   ensures [none]  result == -1 ==> forall(0, len(s), func(k int) bool { return s[k] != c })
+//@   ensures [found] result != -1 ==> 0 <= result && result < len(s) && s[result] == c && forall(result+1, len(s), func(k int) bool { return s[k] != c })
+//@   assigns nothing
+
+// hostport: an explicit port is a colon after the last ']' (IPv6 literals); otherwise the default
+// port (given with its colon) is appended.
+func noByteAfter(s string, i int, c byte) bool {
+	return forall(i+1, len(s), func(j int) bool { return s[j] != c })
+}
+
+//@ func hostport
+//@   props C10 C15
+//@   requires [host] forall(0, len(host), func(k int) bool { return host[k] != ']' || noByteAfter(host, k, ']') })
+//@   ensures [explicit] exists(0, len(host), func(k int) bool { return host[k] == ':' && forall(k, len(host), func(j int) bool { return host[j] != ']' }) }) ==> addr == host
+//@   ensures [name]     addr == host ==> len(hostname) < len(host) && host[len(hostname)] == ':' && noByteAfter(host, len(hostname), ':') && forall(0, len(hostname), func(k int) bool { return hostname[k] == host[k] })
+//@   ensures [default]  !exists(0, len(host), func(k int) bool { return host[k] == ':' && forall(k, len(host), func(j int) bool { return host[j] != ']' }) }) ==> hostname == host && len(addr) == len(host)+len(defaultPort) && forall(0, len(host), func(k int) bool { return addr[k] == host[k] }) && forall(0, len(defaultPort), func(k int) bool { return addr[len(host)+k] == defaultPort[k] })
+//@   assigns nothing
+
+// btrim drops leading and trailing blanks (SP, HTAB) and nothing else.
+func isBlank(c byte) bool { return c == ' ' || c == '\t' }
+
+//@ func btrim
+//@   props C09 C10 C15
+//@   ensures [sub]   sameBase(result, bts) || len(bts) == 0
+//@   ensures [range] 0 <= offOf(result)-offOf(bts) && offOf(result)-offOf(bts)+len(result) <= len(bts)
+//@   ensures [lead]  forall(0, offOf(result)-offOf(bts), func(k int) bool { return isBlank(bts[k]) })
+//@   ensures [trail] forall(offOf(result)-offOf(bts)+len(result), len(bts), func(k int) bool { return isBlank(bts[k]) })
+//@   ensures [tight] len(result) > 0 ==> !isBlank(result[0]) && !isBlank(result[len(result)-1])
+//@   assigns nothing
+//@   loop 1 invariant [i] 0 <= i && i <= len(bts) && forall(0, i, func(k int) bool { return isBlank(bts[k]) })
+//@   loop 1 decreases len(bts) - i
+//@   loop 2 invariant [j] i <= j && j <= len(bts) && 0 <= i && forall(0, i, func(k int) bool { return isBlank(bts[k]) }) && forall(j, len(bts), func(k int) bool { return isBlank(bts[k]) }) && (i < len(bts) ==> !isBlank(bts[i]))
+//@   loop 2 decreases j
+
+// canonicalizeHeaderKey: first letter and letters after '-' upper case, other letters lower case,
+// everything else untouched (textproto.CanonicalMIMEHeaderKey on ASCII).
+func isLower(c byte) bool { return 'a' <= c && c <= 'z' }
+func isUpper(c byte) bool { return 'A' <= c && c <= 'Z' }
+func specCanon(prev byte, c byte) byte {
+	if prev == '-' {
+		if isLower(c) {
+			return c - 32
+		}
+		return c
+	}
+	if isUpper(c) {
+		return c + 32
+	}
+	return c
+}
+
+//@ func canonicalizeHeaderKey
+//@   props C09 C15
+//@   ensures [canon] forall(0, len(k), func(i int) bool { return k[i] == specCanon(iteByte(i == 0, '-', old(k[i-1])), old(k[i])) })
+//@   assigns bytes(k)
+//@   loop 1 invariant [r] -1 <= rangeIdx() && rangeIdx() < len(k)
+//@   loop 1 invariant [done] forall(0, rangeIdx()+1, func(j int) bool { return k[j] == specCanon(iteByte(j == 0, '-', old(k[j-1])), old(k[j])) })
+//@   loop 1 invariant [rest] forall(rangeIdx()+1, len(k), func(j int) bool { return k[j] == old(k[j]) })
+//@   loop 1 invariant [up]   upper == (rangeIdx() < 0 || old(k[rangeIdx()]) == '-')
+//@   loop 1 assigns bytes(k)
